@@ -2,6 +2,7 @@ package rules
 
 import (
 	"fmt"
+	"go/constant"
 	"go/token"
 	"go/types"
 	"sort"
@@ -443,6 +444,8 @@ func returnsFromEntry(fn *ssa.Function, through func(ssa.Instruction) bool) []pa
 		passed  bool
 	}
 	seen := map[key]bool{}
+	// the outcome of every branch taken so far: a boolean returned later (return elapsed) is that outcome
+	known := map[ssa.Value]bool{}
 	var walk func(blk, from *ssa.BasicBlock, env map[*ssa.Phi]ssa.Value, passed bool)
 	walk = func(blk, from *ssa.BasicBlock, env map[*ssa.Phi]ssa.Value, passed bool) {
 		k := key{blk, from, passed}
@@ -450,6 +453,7 @@ func returnsFromEntry(fn *ssa.Function, through func(ssa.Instruction) bool) []pa
 			return
 		}
 		seen[k] = true
+		defer delete(seen, k) // path enumeration (the functions this is used on are small)
 		ne := map[*ssa.Phi]ssa.Value{}
 		for a, b := range env {
 			ne[a] = b
@@ -482,9 +486,40 @@ func returnsFromEntry(fn *ssa.Function, through func(ssa.Instruction) bool) []pa
 						op = v
 					}
 				}
+				if bv, ok := known[op]; ok {
+					op = ssa.NewConst(constant.MakeBool(bv), types.Typ[types.Bool])
+				}
 				pr.ops = append(pr.ops, op)
 			}
 			out = append(out, pr)
+			return
+		}
+		if iff, ok := blk.Instrs[len(blk.Instrs)-1].(*ssa.If); ok && len(blk.Succs) == 2 {
+			cond, neg := iff.Cond, false
+			for {
+				if u, isNot := cond.(*ssa.UnOp); isNot && u.Op == token.NOT {
+					cond, neg = u.X, !neg
+					continue
+				}
+				break
+			}
+			for i, s := range blk.Succs {
+				outcome := (i == 0) != neg // value of cond on this edge
+				if old, had := known[cond]; had && old != outcome {
+					continue // contradicts an earlier branch on the same value
+				}
+				_, hadC := known[cond]
+				_, hadI := known[iff.Cond]
+				known[cond] = outcome
+				known[iff.Cond] = i == 0
+				walk(s, blk, ne, passed)
+				if !hadC {
+					delete(known, cond)
+				}
+				if !hadI {
+					delete(known, iff.Cond)
+				}
+			}
 			return
 		}
 		for _, s := range blk.Succs {
@@ -940,6 +975,66 @@ func checkErrorsPkg(c *Ctx) {
 			}
 		})
 		ok := ta != nil && inv != nil && core.InLoop(ta.Block()) && core.InLoop(inv.Block())
+		if ta == nil && inv == nil {
+			// one unwrapping step in a helper (next, ok := unwrapOnce(err)): the loop variable is fed by the parameter
+			// and by the helper's result, which is x.Cause() of its argument asserted to the one-method interface;
+			// the helper's ok result ends the loop
+			for _, r := range core.Returns(fn) {
+				phi, isPhi := r.Results[0].(*ssa.Phi)
+				if !isPhi || !core.InLoop(phi.Block()) {
+					continue
+				}
+				hasP, hasC, other := false, false, false
+				for _, e := range phi.Edges {
+					switch {
+					case e == ssa.Value(fn.Params[0]):
+						hasP = true
+					case e == ssa.Value(phi):
+					default:
+						res := core.NewResolver(false)
+						cv, isCall := res.V(e).(*ssa.Call)
+						step := false
+						if isCall && cv.Call.IsInvoke() && cv.Call.Method.Name() == "Cause" {
+							// receiver: result #0 of a comma-ok assertion of the helper's argument, which is the loop variable
+							recv := res.V(cv.Call.Value)
+							if ex, isEx := recv.(*ssa.Extract); isEx && ex.Index == 0 {
+								if t2, isTA := ex.Tuple.(*ssa.TypeAssert); isTA && t2.CommaOk {
+									if it, isI := t2.AssertedType.Underlying().(*types.Interface); isI && it.NumMethods() == 1 && it.Method(0).Name() == "Cause" {
+										if res.V(t2.X) == ssa.Value(phi) {
+											step = true
+										}
+									}
+								}
+							}
+						}
+						if step {
+							hasC = true
+						} else {
+							other = true
+						}
+					}
+				}
+				// the loop is left through the helper's ok result
+				exits := false
+				core.EachInstr(fn, func(in ssa.Instruction) {
+					if iff, isIf := in.(*ssa.If); isIf && core.InLoop(iff.Block()) {
+						c := iff.Cond
+						if u, isNot := c.(*ssa.UnOp); isNot && u.Op == token.NOT {
+							c = u.X
+						}
+						if ex, isEx := c.(*ssa.Extract); isEx && ex.Index == 1 {
+							if _, isCall := ex.Tuple.(*ssa.Call); isCall {
+								exits = true
+							}
+						}
+					}
+				})
+				if hasP && hasC && !other && exits {
+					R.OK("C08.errors", "errors|Cause|unwinds", P.Pos(fn.Pos()), "Cause() follows Cause() links (through a one-step helper), and nothing else, until a value that does not implement it")
+					return
+				}
+			}
+		}
 		if ok {
 			// the returned value is the loop variable fed by the parameter and by Cause()'s result
 			ok = false
